@@ -189,6 +189,11 @@ class _Normaliser:
                 if r3 is not None:
                     out[i] = r3
                     self.changed += 1
+                r4 = self._n4(s)
+                if r4 is not None:
+                    out = out[:i] + r4 + out[i + 1:]
+                    self.changed += 1
+                    continue
             if isinstance(s, ast.For):
                 self._resolve_len_bound(out, i)
                 r2 = self._n2(s)
@@ -288,6 +293,28 @@ class _Normaliser:
                 if isinstance(y.ctx, ast.Load):
                     return True
         return False
+
+    # ------------------------------------------------------------------ N4
+    @staticmethod
+    def _n4(s: ast.If) -> Optional[List[ast.stmt]]:
+        """`if X: [name = <attribute chain>]*; for v in X: BODY` (no else) -> the statements themselves: a loop over an empty X runs
+        zero times, and the hoisted attribute reads have no effect (X a name or attribute chain, tested by truthiness or len())."""
+        if s.orelse or not s.body or not isinstance(s.body[-1], ast.For) or s.body[-1].orelse:
+            return None
+        t = s.test
+        if isinstance(t, ast.Compare) and len(t.ops) == 1 and isinstance(t.comparators[0], ast.Constant) and t.comparators[0].value == 0 \
+                and type(t.comparators[0].value) is int and isinstance(t.ops[0], (ast.Gt, ast.NotEq)):
+            t = t.left
+        if isinstance(t, ast.Call) and isinstance(t.func, ast.Name) and t.func.id == 'len' and len(t.args) == 1 and not t.keywords:
+            t = t.args[0]
+        if _access_path(t) is None or ast.dump(t) != ast.dump(s.body[-1].iter):
+            return None
+        xname = _access_path(t)
+        for a in s.body[:-1]:
+            if not (isinstance(a, ast.Assign) and len(a.targets) == 1 and isinstance(a.targets[0], ast.Name)
+                    and _access_path(a.value) is not None and a.targets[0].id != xname.split('.')[0]):
+                return None
+        return list(s.body)
 
     # ------------------------------------------------------------------ N3
     @staticmethod
